@@ -29,6 +29,10 @@ def spell(rng, v, kinds=None):
         # literals hit the known finding C13/float-literal-rounding and are exercised by c13.py only
         opts += ["float.0", "float-e"]
     k = rng.choice(kinds or opts)
+    if k not in opts:
+        # the requested spelling cannot express this value exactly (int literal above u64::MAX, float above
+        # 10^15): fall back to a string, otherwise the document is invalid for a reason the caller did not intend
+        k = "dec-str"
     if k == "int":
         return Raw(str(v)), k
     if k == "float.0":
